@@ -3,8 +3,98 @@ import os
 from framework import REPO, ROOT
 from props import C09 as e3
 
-TIE = ["Nsq.Tie.ProtoHttp", "Nsq.Tie.ProtoHttpFull"]
-PROPS = ["Nsq.Props.C10", "Nsq.Props.C10Full"]
+TIE = ["Nsq.Tie.ProtoHttp", "Nsq.Tie.ProtoHttpFull", "Nsq.Tie.ConnsStats"]
+PROPS = ["Nsq.Props.C10", "Nsq.Props.C10Full", "Nsq.Props.C10Char"]
+HARNESS = e3.HARNESS + ["e3/audit10_test.go"]
+
+
+def audit_leg(ctx, binp, corr_broken):
+    """Audit round 7 (B16, B20): `httpb` ops — status, broker and the number of body bytes each handler
+    consumes, replayed through Nsq.Model.HttpFull.serve / Nsq.Model.HttpBody.bodyRead; model-free oracle "no
+    handler consumes more than max(max-msg-size, max-body-size)+1 bytes"; interrupted requests on the listener.
+    The model prints the current shape (`R`) and the shape before fix F33 (`RO`); the old shape is accepted
+    only while the replay corpus/C10/known/admin_body_unbounded.opsb still reproduces the finding."""
+    corpus = os.path.join(ctx.work, "corpusb")
+    os.makedirs(corpus, exist_ok=True)
+    n = 0
+    for sub in ("", "fixed", "known"):
+        d = os.path.join(ROOT, "corpus", "C10", sub)
+        if os.path.isdir(d):
+            for fn in sorted(os.listdir(d)):
+                if fn.endswith(".opsb"):
+                    n += 1
+                    with open(os.path.join(corpus, "%02d_%s_%s" % (n, sub or "min", fn)), "w") as f:
+                        f.write(open(os.path.join(d, fn)).read())
+    N = ctx.budget(500, 5000)
+    if ctx.replay_in:
+        N = 0
+        if "httpb " not in open(ctx.replay_in).read():
+            return
+        for fn in os.listdir(corpus):
+            os.remove(os.path.join(corpus, fn))
+        with open(os.path.join(corpus, "00_replay.opsb"), "w") as f:
+            f.write(open(ctx.replay_in).read())
+    rc, out = ctx.run_cmd([binp, "-test.run", "^TestVerifE3HTTPAudit$", "-test.count=1", "-test.timeout=3000s"],
+                          timeout=3200, env={"VERIF_SEED": ctx.seed, "VERIF_N": N, "VERIF_OUT": ctx.work,
+                                             "VERIF_REPO": REPO, "VERIF_CORPUS": corpus})
+    fails, okl = e3.harness_lines(ctx, out, "httpb")
+    unfixed = any(" key=admin-body-unbounded " in l for l in fails)
+    for l in fails:
+        e3.report_oracle_fail(ctx, l)
+    if rc != 0 or (not okl and not fails):
+        ctx.log("httpb harness failed (rc=%s):\n%s" % (rc, out[-3000:]))
+        corr_broken.append("httpb harness exit %s" % rc)
+        if "panic:" in out or "fatal error:" in out:
+            ctx.violation("panic", "the nsqd process died while serving generated HTTP requests (body-read leg)",
+                          out[-4000:])
+    opsf = os.path.join(ctx.work, "httpb.ops")
+    if not os.path.exists(opsf):
+        return
+    ops = open(opsf).read().splitlines()
+    impl = open(os.path.join(ctx.work, "httpb.impl")).read().splitlines()
+    rc, mout = ctx.driver("e3", stdin_path=opsf, timeout=3000)
+    model = mout.splitlines()
+    ndiff = 0
+    old_shape = 0
+    norm_impl, norm_model = [], []
+    for i, o in enumerate(ops):
+        a = impl[i] if i < len(impl) else "<missing>"
+        b = model[i] if i < len(model) else "<missing>"
+        if o.startswith("httpb "):
+            ctx.count_case(o, nontrivial=True)
+            if len(o) < 300 and i % 53 == 0:
+                ctx.add_sample({"op": o, "impl": a[:300], "model": b[:300]})
+            fa, fb = a.split(), b.split()
+            if len(fa) == 3 and len(fb) == 4 and fa[1].startswith("R=") and fb[1].startswith("R") and fb[2].startswith("RO"):
+                got = int(fa[1][2:])
+                cur, old = fb[1][1:], fb[2][2:]
+
+                def fits(tok):
+                    if tok == "?":
+                        return True
+                    if tok.startswith("<="):
+                        return got <= int(tok[2:])
+                    return tok.startswith("=") and got == int(tok[1:])
+                if fits(cur):
+                    a = "%s R%s %s" % (fa[0], cur, fa[2])
+                elif unfixed and fits(old):
+                    old_shape += 1
+                    a = "%s R%s %s" % (fa[0], cur, fa[2])
+                b = "%s %s %s" % (fb[0], fb[1], fb[3])
+        norm_impl.append(a)
+        norm_model.append(b)
+        if a != b:
+            ndiff += 1
+            if ndiff <= 5:
+                ctx.log("body-read model/impl disagree on `%s`:\n   impl  %s\n   model %s" % (o[:300], a[:400], b[:400]))
+                corr_broken.append("correspondence httpb: %s" % o[:160])
+                if ndiff == 1:
+                    ctx.corr["first_disagreement_httpb"] = {"op": o[:2000], "impl": a[:2000], "model": b[:2000]}
+    ctx.corr["httpb_old_shape_lines"] = old_shape
+    ctx.diff_lines(norm_impl, norm_model, "httpb")
+    if ctx.replay_in:
+        for o, a, b in zip(ops, impl, model):
+            print("op    %s\n impl  %s\n model %s" % (o[:400], a[:600], b[:600]))
 
 
 def full_leg(ctx, binp, corr_broken):
@@ -87,8 +177,16 @@ def run(ctx):
         "the TCP side of the equivalence theorems is the C09 model, itself tied by Nsq.Tie.Proto and the C09 harness",
     ]
     ctx.assumptions += [
-        "no_500: holds for healthy=true; /ping answers 500 while nsqd.IsHealthy() is false (backend write error)",
-        "backend I/O faults (topic.Empty / channel.Empty / PersistMetadata errors, body read errors) are outside",
+        "no_500 / no_500_complete: holds for healthy=true; /ping answers 500 while nsqd.IsHealthy() is false (backend write error)",
+        "no_500_complete: the request is complete (declared length = bytes that arrive, or chunked): an interrupted body is "
+        "answered 500 by /pub, text /mpub and PUT /config (read-error branch, not modelled; observed on the real listener "
+        "by TestVerifE3HTTPAudit, oracle http-interrupted)",
+        "the daemon is not exiting (503 EXITING from /pub and /mpub) and os.Hostname() succeeds (/info answers 500 otherwise): "
+        "no model branch, named exclusions",
+        "backend I/O faults (topic.Empty / channel.Empty / PersistMetadata errors) are outside",
+        "body_read_bounded, admin_reads_no_body: the tree with fix F33 (fixes/F33_reqparams_no_body_read.patch); on the "
+        "unfixed tree the statement is false (body_read_bounded_false_before_F33, open finding admin-body-unbounded)",
+        "mpub_text_vs_tcp: options shared (Linked), valid topic name, framed batch shorter than 2^31 bytes",
         "equivalence theorems: both servers read the same options, auth disabled, 0 <= max-req-timeout < 2^63-1 ns, "
         "max-msg-size >= 0, body shorter than 2^31 bytes, request complete (declared length = body length, or chunked)",
         "mpub_binary_equiv_tcp: a chunked body is within max-body-size (beyond it HTTP reads only the first "
@@ -104,8 +202,13 @@ def run(ctx):
                 "health fault; interleaved TCP connections that create channels, consumers and messages. Compared: "
                 "status, message, white-box broker snapshot after every op. Distinct by op line; non-trivial = all. "
                 "Direct oracles: no 500 / panic; twin topics (HTTP vs TCP publish of the same payload leave "
-                "identical queues or are both rejected); size limits on accepted publishes; listener smoke test")
+                "identical queues or are both rejected — for text /mpub both sides are checked against the exact limits of "
+                "their format, divergent cases included); size limits on accepted publishes; listener smoke test. Audit round 7: "
+                "`httpb` histories (bodies up to 100 x max-body-size on every endpoint, counting reader): status, bytes of body "
+                "consumed, broker; oracle: no handler consumes more than max(max-msg-size,max-body-size)+1 bytes; interrupted "
+                "requests on the real listener")
     gen_ok, _ = ctx.gen("e3_proto")
+    ctx.gen("e3_conns")   # tcpServer.Handle's conns.Store vs the type assertions of GetStats / Close (Tie.ConnsStats)
     ok, log = ctx.lean_build(TIE + PROPS)
     if not ok:
         ctx.lean_obligation_failed("lake build " + " ".join(TIE + PROPS), log[-1500:])
@@ -114,7 +217,7 @@ def run(ctx):
         ctx.leanchecker(PROPS)
     corr_broken = []
     ctx.build_driver("e3")
-    binp = ctx.go_test_binary("nsqd", e3.HARNESS, "e3http")
+    binp = ctx.go_test_binary("nsqd", HARNESS, "e3http")
     if not binp:
         ctx.broken_ties.append("harness harness/e3 does not compile against the current tree")
         corr_broken.append("harness build")
@@ -161,6 +264,8 @@ def run(ctx):
                     print("op    %s\n impl  %s\n model %s" % (o[:400], a[:600], b[:600]))
     if binp:
         full_leg(ctx, binp, corr_broken)
+        audit_leg(ctx, binp, corr_broken)
+    e3.halfopen_leg(ctx, corr_broken)   # /stats while TCP connections have not completed the protocol magic
     if (ctx.broken_ties or corr_broken) and not ctx.violations:
         ctx.broken_without_input(ctx.broken_ties + corr_broken,
                                  "search: %d generated operations, the 500/twin-topic/size oracles found no request on "
